@@ -46,7 +46,9 @@ VARIABLES lim, dummy,          \* configuration of the run: max_retries, DummyFa
           plan, budget, kind,  \* the failure plan: plan[<<x,ph>>] injected failures (constant), budget = those left, kind[<<x,ph>>]
           stk,                 \* stack of frames, stk[1] = the original workflow
           cur,                 \* job holding the token, or "none"
-          gen, avail, prov,    \* gen[x]; avail[x][g]; prov[x][g] = [p -> generation read]
+          gen, avail, prov,    \* gen[x]; avail[x][g] = the LOCATIONS that hold a copy of the instance (the producer's
+                               \* own location + every location a consumer staged a replica on; {} = lost);
+                               \* prov[x][g] = [p -> generation read]
           version, attempts,   \* RecoveryRequest.version[x]; attempts[x][ph]
           status,              \* "running" | "done" | "raised" | "final"
           hist,                \* jobs in the order they took the token
@@ -79,7 +81,7 @@ Build(av, front, rb, inj) ==
   ELSE LET i == CHOOSE i \in front : TRUE
            p == i[1]
            g == i[2]
-       IN IF av[p][g] THEN Build(av, front \ {i}, rb, inj \cup {i})
+       IN IF av[p][g] # {} THEN Build(av, front \ {i}, rb, inj \cup {i})
           ELSE Build(av, (front \ {i}) \cup ({<<pp, prov[p][g][pp]>> : pp \in Parents[p]} \ inj), rb \cup {p}, inj)
 
 \* GraphMapper._update_token: of two instances of the same port the available one wins
@@ -101,7 +103,7 @@ Init ==
   /\ budget = plan /\ lim = Limit /\ dummy = Dummy
   /\ stk = <<Frame0>> /\ cur = "none"
   /\ gen = [x \in Jobs |-> 0]
-  /\ avail = [x \in Jobs |-> [g \in Gens |-> FALSE]]
+  /\ avail = [x \in Jobs |-> [g \in Gens |-> {}]]
   /\ prov = [x \in Jobs |-> [g \in Gens |-> NoIns]]
   /\ version = [x \in Jobs |-> 1]
   /\ attempts = [x \in Jobs |-> [ph \in PhSet |-> 0]]
@@ -110,7 +112,11 @@ Init ==
 
 Ready(f, x) == f.next[x] \in PhSet /\ \A p \in Parents[x] : f.port[p] # 0
 
-Wiped(l) == [y \in Jobs |-> [g \in Gens |-> IF Loc[y] = l THEN FALSE ELSE avail[y][g]]]
+Wiped(l) == [y \in Jobs |-> [g \in Gens |-> avail[y][g] \ {l}]]
+\* a transfer towards another location leaves a replica there, registered as a related PRIMARY data location
+\* (FileToken.is_available: the file exists in AT LEAST ONE of its locations)
+StagedAt(f, x) == [y \in Jobs |-> [g \in Gens |-> IF y \in Parents[x] /\ g = f.port[y] /\ Loc[y] # Loc[x]
+                                                    THEN avail[y][g] \cup {Loc[x]} ELSE avail[y][g]]]
 
 \* completion of the failed job's failed phase in a recovery frame: the recovery workflow ends and the
 \* failed step's output is propagated to the parent workflow (BoundaryAction.PROPAGATE)
@@ -129,7 +135,7 @@ Pop(stack, f, x, ph) ==
 \* graph inputs `get_job_token(failed_job.name, port.token_list)` - the FIRST JobToken of the job in the workflow's
 \* port - and after a recovery of the job's transfer step that token still records the OLD input instances.
 StaleJobToken(f, x, ph) ==
-  ph = "e" /\ \E p \in Parents[x] : f.jobtok[x][p] # f.staged[x][p] /\ ~avail'[p][f.jobtok[x][p]]
+  ph = "e" /\ \E p \in Parents[x] : f.jobtok[x][p] # f.staged[x][p] /\ avail'[p][f.jobtok[x][p]] = {}
 
 \* the failure of phase ph of x in the top frame: RollbackFailureManager.recover.  The graph is built on the
 \* availability AFTER the failure (avail' : a fail-stop has wiped the location by then)
@@ -166,7 +172,7 @@ RunPhase(x) ==
                   /\ avail' = IF kind[k] = "fail_stop" THEN Wiped(Loc[x]) ELSE avail
                   /\ UNCHANGED <<gen, prov, kind, plan, lim, dummy>>
                   /\ RecoverP(x, ph)
-             ELSE IF ph = "t" /\ \E p \in Parents[x] : ~avail[p][f.port[p]]
+             ELSE IF ph = "t" /\ \E p \in Parents[x] : avail[p][f.port[p]] = {}
              THEN \* natural failure: the instance in this workflow's port is gone
                   /\ UNCHANGED <<lim, dummy, plan, budget, kind, avail, gen, prov>>
                   /\ RecoverP(x, ph)
@@ -178,9 +184,10 @@ RunPhase(x) ==
                                  [] ph = "e" -> [f EXCEPT !.next[x] = "done", !.port[x] = g1]
                      IN /\ IF ph = "e"
                              THEN /\ gen' = [gen EXCEPT ![x] = g1]
-                                  /\ avail' = [avail EXCEPT ![x][g1] = TRUE]
+                                  /\ avail' = [avail EXCEPT ![x][g1] = {Loc[x]}]
                                   /\ prov' = [prov EXCEPT ![x][g1] = f.staged[x]]
-                             ELSE UNCHANGED <<gen, avail, prov>>
+                             ELSE /\ avail' = IF ph = "t" THEN StagedAt(f, x) ELSE avail
+                                  /\ UNCHANGED <<gen, prov>>
                         /\ stk' = IF Len(stk) > 1 /\ f.fj = x /\ f.upto = ph THEN Pop(stk, f1, x, ph) ELSE SetTop(f1)
                         /\ cur' = IF ph = "e" THEN "none" ELSE x
                         /\ status' = IF Len(stk') = 1 /\ \A y \in Jobs : stk'[1].next[y] = "done" THEN "done" ELSE "running"
@@ -207,7 +214,7 @@ ExhaustedRaises == status = "done" => /\ \A k \in Jobs \X PhSet : plan[k] - budg
 \* C17 (L): every run ends (returns or raises) - no livelock
 Terminates == <>(status = "final")
 \* C16: a run that completes has its output available
-OutputThere == status = "done" => avail[Sink][stk[1].port[Sink]]
+OutputThere == status = "done" => avail[Sink][stk[1].port[Sink]] # {}
 \* C18: a job runs a phase twice only if it failed itself or one of its instances was lost when a consumer needed it
 OnlyNeeded == \A x \in Jobs : (\E ph \in PhSet : attempts[x][ph] > 1) => x \in failedEver \cup lostEver
 =============================================================================
